@@ -304,6 +304,8 @@ class ExprParser(RecursiveDescent):
             params.append(node)
             if not self.have("COMMA"):
                 break
+            if self.token.typ == "RPAREN":
+                self.error_msg("Expected an argument after ',', found RPAREN")
         self.mustbe("RPAREN")
         self.exit("argument_list", str(params))
         return params
